@@ -90,13 +90,10 @@ def handle (ws : List String) : String :=
         let r := startPlayer startCfgNow pp true c0 {}
         (r.2.1, r.2.2)
       else (c0, ({} : World))
-    let base := w1.live
     let w1 := { w1 with oracle := oracleOf (k.toInt?.getD (-1)), nalloc := 0 }
     let r := startPlayer startCfgNow pp true c1 w1
-    -- blocks of the window that are still live: everything when not playing before; when playing
-    -- before, the old blocks were released by xmp_end_player inside the call
-    let live := if b01 playing then (if r.1 < 0 then r.2.2.live else r.2.2.live) else r.2.2.live
-    let _ := base
+    -- blocks still live: when playing before, the old blocks were released by xmp_end_player inside the call
+    let live := r.2.2.live
     s!"rc={rcStr r.1} state={r.2.1.state.toNat} nalloc={r.2.2.nalloc} live={countsStr live} bad={r.2.2.bad}"
   | ["release", st, owned] =>
     let cs := parseCounts owned
